@@ -403,6 +403,35 @@ def r_index_validation(cx):
                 cx.ob("R-INDEX-VALIDATION", "stack/%s" % key, False,
                       "stack::new does not validate the indices given with `%s` by membership in a list" % key,
                       cx.where(g.d["span"]))
+        # roll / unroll (m, n): stack_roll turns a negative n into m + n and casts to usize - the constructor therefore
+        # bounds the *magnitude* of n by m (a comparison of m with |n|), and tests both for integrality
+        for key in ("roll", "unroll"):
+            mags, fracts = [], 0
+            for bb in sorted(g.reachable()):
+                t = g.term(bb)
+                if t["k"] != "switch":
+                    continue
+                c = g.operand(t["discr"], g.end_point(bb))
+                if c[0] != "bin":
+                    continue
+                sides = (c[2], c[3])
+                from_key = [x for sd in sides for x in _mentions_call(sd, ("series",))
+                            if len(x[2]) > 1 and K._const_key(x[2][1]) == key]
+                if not from_key:
+                    continue
+                if c[1] in ("Le", "Lt", "Ge", "Gt") and all(_mentions_call(sd, ("series",)) for sd in sides):
+                    mags.append((bb, any(_mentions_call(sd, ("abs", "unsigned_abs")) for sd in sides)))
+                if c[1] in ("Ne", "Eq") and any(_mentions_call(sd, ("fract", "trunc", "round", "floor")) for sd in sides):
+                    fracts += 1
+            n += 1
+            ok = bool(mags) and all(a for _, a in mags) and fracts >= 2
+            why = "no comparison of m with n" if not mags else (
+                "the comparison of m with n uses the signed n (any negative n passes; m + n then wraps to a huge count "
+                "of rotations)" if not all(a for _, a in mags) else "m and n are not both tested for integrality")
+            cx.ob("R-INDEX-VALIDATION", "stack/%s" % key, ok,
+                  "stack::new bounds |n| by m for `%s=m,n` and tests both for integrality" % key if ok else
+                  "stack::new, `%s=m,n`: %s" % (key, why),
+                  cx.where(g.term(mags[0][0])["span"]) if mags else cx.where(g.d["span"]))
     cx.count("R-INDEX-VALIDATION", "validations", n)
 
 
@@ -460,3 +489,56 @@ def r_table_scan(cx):
     cx.ob("R-TABLE-SCAN", "summary", True, "%d range loops examined: none scans a constant table short of its end" % scans,
           nontrivial=scans > 0)
     cx.count("R-TABLE-SCAN", "range_loops", scans)
+
+
+# ---------------------------------------------------------------------------------------------------------------------
+# R-GUARD-MATCH-AGREE (C09, C11): the "cannot happen" arm of the designator match really cannot happen
+
+@rule("R-GUARD-MATCH-AGREE", ["C09", "C11"])
+def r_guard_match_agree(cx):
+    """coordinate_order_descriptor first rejects unknown axis designators (`!"neufswdp".contains(d)`) and then maps the
+    designator to a signed axis number in a `match` whose fall-through arm ("cannot happen") yields 0 - an axis number
+    that makes the permutation check index `count[(0 - 1) as usize]` out of bounds. The belief holds only if the guard
+    and the match agree: the value tested by the guard is the value matched, and the characters the guard accepts are
+    exactly the characters the match has arms for."""
+    f = cx.f.fn("inner_op::adapt::coordinate_order_descriptor")
+    guards = []
+    for bb, t in f.calls():
+        c = f.callee(t) or ""
+        if c.endswith("str>::contains"):
+            a = f.arg_terms(bb)
+            lit = K._const_key(a[0]) if a else None
+            if lit is not None and len(a) > 1:
+                guards.append((bb, lit, mir.strip_refs(a[1])))
+    n = 0
+    for b in sorted(f.reachable()):
+        t = f.term(b)
+        if t["k"] != "switch" or len(t["targets"]) < 4:
+            continue
+        scrut = mir.strip_refs(f.operand(t["discr"], f.end_point(b)))
+        arms = set()
+        for v, _ in t["targets"]:
+            try:
+                arms.add(chr(int(v)))
+            except (ValueError, TypeError, OverflowError):
+                arms = None
+                break
+        if not arms:
+            continue
+        n += 1
+        dom = [(gb, lit, x) for (gb, lit, x) in guards if f.dominates(gb, b)]
+        same = [(gb, lit, x) for (gb, lit, x) in dom if x == scrut]
+        ok = bool(same) and any(set(lit) == arms for (_, lit, _) in same)
+        why = ""
+        if not dom:
+            why = "no membership test dominates the match"
+        elif not same:
+            why = "the guard tests a different value (%s) than the one that is matched" % ("a converted copy" if dom else "?")
+        elif not ok:
+            why = "the guard accepts {%s} while the match has arms for {%s}" % (
+                ",".join(sorted(same[0][1])), ",".join(sorted(arms)))
+        cx.ob("R-GUARD-MATCH-AGREE", "coordinate_order_descriptor/match%d" % (n - 1), ok,
+              "the designator guard and the designator match agree on value and alphabet {%s}" % ",".join(sorted(arms)) if ok else
+              "adapt: %s: the `_ => 0` arm marked 'cannot happen' is reachable, and axis number 0 indexes "
+              "count[(0 - 1) as usize] out of bounds (panic at instantiation)" % why, cx.where(t["span"]))
+    cx.count("R-GUARD-MATCH-AGREE", "matches", n)
